@@ -24,6 +24,8 @@ const (
 func (r Result) String() string { return [...]string{"unsat", "sat", "unknown"}[r] }
 
 type Solver struct {
+	lines   chan string
+	hung    bool
 	Name    string
 	cmd     *exec.Cmd
 	in      io.WriteCloser
@@ -68,6 +70,17 @@ func NewSolver(name string, timeoutMs int, logw io.Writer) (*Solver, error) {
 		return nil, err
 	}
 	s := &Solver{Name: name, cmd: cmd, in: in, out: bufio.NewReaderSize(out, 1<<16), log: logw, timeout: timeoutMs}
+	s.lines = make(chan string, 64)
+	go func() {
+		for {
+			l, err := s.out.ReadString('\n')
+			if err != nil {
+				close(s.lines)
+				return
+			}
+			s.lines <- l
+		}
+	}()
 	s.levels = []map[int]bool{{}}
 	s.ufDone = []map[string]bool{{}}
 	if name == "cvc5" {
@@ -82,6 +95,10 @@ func (s *Solver) Close() {
 		return
 	}
 	s.dead = true
+	if s.hung {
+		s.cmd.Wait()
+		return
+	}
 	s.in.Close()
 	done := make(chan struct{})
 	go func() { s.cmd.Wait(); close(done) }()
@@ -93,6 +110,9 @@ func (s *Solver) Close() {
 }
 
 func (s *Solver) send(line string) {
+	if s.hung {
+		panic(engineError{"solver was killed earlier on this path"})
+	}
 	if s.log != nil {
 		fmt.Fprintln(s.log, line)
 	}
@@ -102,12 +122,23 @@ func (s *Solver) send(line string) {
 }
 
 func (s *Solver) readLine() string {
-	l, err := s.out.ReadString('\n')
-	if err != nil {
-		panic(engineError{"solver pipe read: " + err.Error()})
+	// hard watchdog: some queries make the solver spin past its own timeout
+	limit := time.Duration(s.timeout)*time.Millisecond + 10*time.Second
+	select {
+	case l, ok := <-s.lines:
+		if !ok {
+			panic(engineError{"solver pipe closed"})
+		}
+		return strings.TrimSpace(l)
+	case <-time.After(limit):
+		s.hung = true
+		s.cmd.Process.Kill()
+		panic(engineError{"solver did not answer within its timeout (killed)"})
 	}
-	return strings.TrimSpace(l)
 }
+
+// Hung reports whether the solver process had to be killed.
+func (s *Solver) Hung() bool { return s.hung }
 
 func (s *Solver) Push() {
 	s.send("(push 1)")
